@@ -152,6 +152,14 @@ def countSteps (mm : MM) : Nat → Nat → State → Nat
     | .ok (some s') => countSteps mm f (n + 1) s'
     | _ => n
 
+/-- which shape a parked entry has: a whole instruction (unresolved parent) or `{"parent": obj, op: …}` -/
+def actionKind : Action → String
+  | .whole _ => "whole"
+  | .piece _ (.item _ _) => "extend"
+  | .piece _ (.setE _ _) => "set"
+  | .piece _ (.sync _ _) => "sync"
+  | .piece _ (.resync _ _ _ _ _) => "sync"
+
 /-- the metamodel of a request: `"mm":"gen"` = the table generated from the live classes
 (`Capella/Gen/DeclMeta.lean`), else the permissive one over `"dflt":[[attr,cls]…]` -/
 def mmOf (j : Json) : Except String MM := do
@@ -169,8 +177,12 @@ def handle (op : String) (j : Json) : Except String Json := do
     let doc ← (← arrOf j "doc").mapM instr
     let s0 := init g doc
     let bound := s0.measure
+    -- the state in which the `while instructions:` loop ended (the no-progress fixpoint): what is still parked
+    let parked : List Json := match run dflt (bound + 1) s0 with
+      | some (.ok sf) => sf.deferred.map (fun e => Json.arr #[jstr e.1, Json.str (actionKind e.2)])
+      | _ => []
     match apply dflt g doc with
-    | .error e => pure ((errOut e).setObjVal! "bound" (Json.num bound))
+    | .error e => pure (((errOut e).setObjVal! "bound" (Json.num bound)).setObjVal! "parked" (Json.arr parked.toArray))
     | .ok (g', ps) =>
       pure (Json.mkObj [
         ("graph", graphOut g'),
